@@ -247,11 +247,85 @@ def translate(repo):
 
 def emit(rows):
     s = '(* GENERATED on every run by tools/tr_c02_gvn.py from mir-gen.c of the checked tree. *)\n'
-    s += 'From Coq Require Import ZArith List String.\nFrom MirV Require Import Mir.Opcode Mir.CExpr.\n'
+    s += 'From Coq Require Import ZArith List String.\nFrom MirV Require Import Mir.Opcode Mir.DocSpec Mir.CExpr.\n'
     s += 'Import ListNotations.\nLocal Open Scope Z_scope.\nLocal Open Scope string_scope.\n\n'
     s += '(* (opcode, guard under which the folder folds, folded value / branch condition) *)\n'
     s += 'Definition gvn_table : list (opcode * option cexpr * cstmt) :=\n  [ '
     s += '\n  ; '.join('(%s, %s, %s)' % (o, coq_opt(g), coq_stmt(st)) for o, g, st in rows) + ' ].\n'
+    return s
+
+
+MEM_TYPES = ['I8', 'U8', 'I16', 'U16', 'I32', 'U32', 'I64', 'U64', 'F', 'D', 'LD', 'P']
+
+
+def canonic_table(src):
+    """canonic_mem_type() -- the type under which GVN identifies two accesses of one address (mem_expr_eq / mem_expr_hash /
+    expr_eq) -- as a table over all memory types, read from the PREPROCESSED source (so `#if` / `#ifdef` selections are
+    the ones the compiler sees).  Accepted shapes: a `switch (type)` of `case T: [case T2: ...] return T3;` groups with
+    `default: return type;`, or a chain of `if (type == T [|| type == T2]) return T3;` ending in `return type;`.
+    -> ([(type, canonical type)], note) or (None, reason)"""
+    m = re.search(r'\bcanonic_mem_type\s*\(\s*MIR_type_t\s+(\w+)\s*\)\s*\{', src)
+    if m is None:
+        return None, 'no function canonic_mem_type (MIR_type_t)'
+    par = m.group(1)
+    i, depth = m.end(), 1
+    while i < len(src) and depth:
+        depth += {'{': 1, '}': -1}.get(src[i], 0)
+        i += 1
+    body = ' '.join(src[m.end():i - 1].split())
+    canon = {}
+    default = None
+    text = ' '.join(re.sub(r'([(){};:|=])', r' \1 ', body).split()).replace('= =', '==').replace('| |', '||')
+    sw = re.match(r'^switch \( %s \) \{ (.*) \}$' % par, text)
+    if sw is not None:
+        rest = sw.group(1)
+        pat = re.compile(r'^((?:case MIR_T_\w+ : |default : )+)return (\w+) ; ')
+        rest += ' '
+        while rest.strip():
+            g = pat.match(rest)
+            if g is None:
+                return None, 'unsupported statement in the switch of canonic_mem_type: ' + rest[:60]
+            for lab in re.findall(r'case MIR_T_(\w+) :|(default) :', g.group(1)):
+                if lab[1]:
+                    default = g.group(2)
+                else:
+                    canon[lab[0]] = g.group(2)
+            rest = rest[g.end():]
+    else:
+        rest = text + ' '
+        pat = re.compile(r'^if \( ((?:%s == MIR_T_\w+ (?:\|\| )?)+)\) return (\w+) ; ' % par)
+        while True:
+            g = pat.match(rest)
+            if g is None:
+                break
+            for t in re.findall(r'MIR_T_(\w+)', g.group(1)):
+                canon.setdefault(t, g.group(2))
+            rest = rest[g.end():]
+        g = re.match(r'^return (\w+) ; $', rest)
+        if g is None:
+            return None, 'unsupported body of canonic_mem_type: ' + rest[:60]
+        default = g.group(1)
+    if default != par:
+        return None, 'canonic_mem_type: the default is not the type itself'
+    rows = []
+    for t in MEM_TYPES:
+        c = canon.get(t, par)
+        if c == par:
+            c = 'MIR_T_' + t
+        if not c.startswith('MIR_T_') or c[6:] not in MEM_TYPES:
+            return None, 'canonic_mem_type (MIR_T_%s) = %s is not a memory type' % (t, c)
+        rows.append((t, c[6:]))
+    return rows, None
+
+
+def emit_canonic(rows, why):
+    s = '\n(* canonic_mem_type of mir-gen.c (after preprocessing): GVN treats two accesses of one address as the same memory\n'
+    s += '   expression when their types have the same canonical type. *)\n'
+    if rows is None:
+        s += '(* NOT READABLE: %s *)\nDefinition gvn_canonic_mem_type : list (mir_type * mir_type) := [].\n' % why.replace('*)', '* )')
+    else:
+        s += 'Definition gvn_canonic_mem_type : list (mir_type * mir_type) :=\n  [ '
+        s += '; '.join('(T_%s, T_%s)' % r for r in rows) + ' ].\n'
     return s
 
 
@@ -296,12 +370,14 @@ def main():
     SMT.write_hints('gvn', hints)
     out = os.path.join(vlib.COQDIR, 'gen', 'GvnFoldTable.v')
     os.makedirs(os.path.dirname(out), exist_ok=True)
-    txt = emit(rows)
+    crow, cwhy = canonic_table(preprocess(vlib.REPO))
+    txt = emit(rows) + emit_canonic(crow, cwhy)
     old = open(out).read() if os.path.exists(out) else None
     if old != txt:
         open(out + '.tmp%d' % os.getpid(), 'w').write(txt)
         os.rename(out + '.tmp%d' % os.getpid(), out)
     unk = [o for o, g, st in rows if st[0] == 'SUnknown']
+    print('GvnFoldTable canonic_mem_type: %s' % (' '.join('%s>%s' % r for r in crow if r[0] != r[1]) if crow is not None else 'NOT READABLE: ' + cwhy))
     print('GvnFoldTable: %d rows, %d unknown%s%s' % (len(rows), len(unk), (': ' + ' '.join(unk[:8])) if unk else '',
                                                      ('; tied by SMT equivalence with the canonical row: ' + '; '.join(notes)) if notes else ''))
 
